@@ -13,7 +13,7 @@ from ..model import FunctionInfo, AnalysisError, dotted
 from ..report import Ctx
 from ..tensor import Typer, MODEL_ARRAYS
 from ..pat import Snips
-from ..util import zero_test, cmp_views, has_cmp, norm, fn_body_nodes, walk_local, kwarg, lexical_guards, atomic_facts
+from ..util import ordered_args, zero_test, cmp_views, has_cmp, norm, fn_body_nodes, walk_local, kwarg, lexical_guards, atomic_facts
 from .common import arg_permutation_rule, names_in, calls_named
 
 EXPLANATION = (
@@ -184,7 +184,7 @@ def rule_store(ctx: Ctx, fi: FunctionInfo, what: str, dist_method: Optional[str]
             ctx.violation("TEN-4", fi, st, f"{what}: value comes from {dist_method}(...).items()", f"the store is not inside a loop over {dist_method}(...).items()")
             return
         lp, call = loops[0]
-        cargs = [_entity(S, a) for a in call.args]
+        cargs = [_entity(S, a) for a in ordered_args(call)]
         key, val = [e.id if isinstance(e, ast.Name) else None for e in lp.target.elts] if isinstance(lp.target, ast.Tuple) and len(lp.target.elts) == 2 else (None, None)
         want_call = ents[:len(cargs)]
         ctx.check(cargs == want_call and ents[len(cargs)] == key if len(ents) > len(cargs) else cargs == want_call, "TEN-4", fi, st,
@@ -196,8 +196,8 @@ def rule_store(ctx: Ctx, fi: FunctionInfo, what: str, dist_method: Optional[str]
                       f"stored value `{norm(st.value)}` is not the probability `{val}` paired with the key")
         elif value_kind == "reward":
             v = _resolve(S, st.value)
-            ok = isinstance(v, ast.Call) and isinstance(v.func, ast.Attribute) and v.func.attr == "reward" and not v.keywords and \
-                None not in ents and [_entity(S, a) for a in v.args] == ents
+            ok = isinstance(v, ast.Call) and isinstance(v.func, ast.Attribute) and v.func.attr == "reward" and \
+                None not in ents and [_entity(S, a) for a in ordered_args(v)] == ents
             ctx.check(ok, "TEN-4", fi, st, f"{what}: stored value is reward({roles}) of the written cell", "",
                       f"stored value `{norm(v)}` is not the reward of the (s, a, ns) whose cell is written")
     elif value_kind == "one":
@@ -213,7 +213,7 @@ def rule_store(ctx: Ctx, fi: FunctionInfo, what: str, dist_method: Optional[str]
     if al and ents and ents[0] is not None and "a" in axes_entities and axes_entities[0] == "s":
         a_ent = ents[axes_entities.index("a")]
         lp_a, it = al[0]
-        ok = isinstance(lp_a.target, ast.Name) and lp_a.target.id == a_ent and not it.keywords and [_entity(S, x) for x in it.args] == [ents[0]]
+        ok = isinstance(lp_a.target, ast.Name) and lp_a.target.id == a_ent and [_entity(S, x) for x in ordered_args(it)] == [ents[0]]
         ctx.check(ok, "TEN-4", fi, lp_a, f"{what}: actions enumerated are the row state's own", "", f"actions come from `{norm(it)}`, not from the row state `{ents[0]}`")
     # zero initialisation for everything else
     zeros = [z for z, _ in _allocations(S, var, ("np.zeros",))]
@@ -342,8 +342,8 @@ def rule_reachability(ctx: Ctx):
         outer = [l for l in loops if any(lp is x for x in ast.walk(l)) and l is not lp]
         oit = _resolve(S, outer[0].iter) if outer else None
         ok = bool(outer) and svar is not None and isinstance(oit, ast.Call) and "actions" in ast.unparse(oit.func) \
-            and [_entity(S, a) for a in oit.args] == [svar] \
-            and [_entity(S, a) for a in call.args] == [svar, outer[0].target.id if isinstance(outer[0].target, ast.Name) else "?"]
+            and [_entity(S, a) for a in ordered_args(oit)] == [svar] \
+            and [_entity(S, a) for a in ordered_args(call)] == [svar, outer[0].target.id if isinstance(outer[0].target, ast.Name) else "?"]
         ctx.check(ok, "REACH-2", f, lp, "expands next_state_dist(s, a) for every a in actions(s) of the popped state", "", "the expansion does not cover exactly the popped state's own actions")
         env = {"ns": key, "visited": visited, "frontier": frontier}
         # the result set is a different object from the worklist; successors are added to each by `<set>.add(<key>)`
@@ -536,7 +536,7 @@ def rule_quick(ctx: Ctx):
         rets = [n for n in ast.walk(m.node) if isinstance(n, ast.Return)]
         Sm = Snips(m)
         rv = _resolve(Sm, rets[0].value) if len(rets) == 1 and rets[0].value is not None else None      # returned call, in place or via a temporary
-        ok = isinstance(rv, ast.Call) and ast.unparse(rv.func) == f"self._{name}" and [_entity(Sm, a) for a in rv.args] == params
+        ok = isinstance(rv, ast.Call) and ast.unparse(rv.func) == f"self._{name}" and [_entity(Sm, a) for a in ordered_args(rv)] == params
         ctx.check(ok, "QK-1", m, m.node, f"QuickMDP.{name} forwards ({', '.join(params)}) in order to self._{name}", "", f"`{norm(rv) if rv is not None else '?'}` does not forward the parameters in order")
         stores = [n for n in ast.walk(init.node) if isinstance(n, ast.Assign) and ast.unparse(n.targets[0]) == f"self._{name}"]
         ok = bool(stores) and all(name in names_in(s.value) or (name == "next_state_dist" and "next_state" in names_in(s.value))
